@@ -407,6 +407,8 @@ func checkC12(r *Report) {
 	nGE := guardBeforeEraseRule(r, p, "C12.i/GUARD-BEFORE-ERASE")
 	r.floor("C12.i/GUARD-BEFORE-ERASE", "guards in package semver that refuse a version because of its prerelease tags", nGE, 1)
 	syntheticBoundRule(r, p, "C12.j/SYNTHETIC-BOUND-INERT")
+	nOE := orderedExitRule(r, p, "C12.k/ORDERED-EXIT")
+	r.floor("C12.k/ORDERED-EXIT", "loops over the spans of a set in package semver", nOE, 4)
 	sortWholeRule(r, p, "C12.g/SORT-WHOLE")
 	matchSortsRule(r, p, "C12.h/MATCH-SORTS")
 	var matchFns []*ssa.Function
